@@ -1170,6 +1170,13 @@ def build_spec(g):
                          "self.monthly_peak_cl", "self.monthly_peak_hl", "self.monthly_peak_cl_duration", "self.monthly_peak_hl_duration",
                          "self.monthly_peak_cl_day", "self.monthly_peak_hl_day", "self.peak_retain_start", "self.peak_retain_end",
                          "self.step_func_load"])
+    # ---- the two-day window of each month's peak day (ground_loads.py), the whole method ----
+    g.func("ground_loads.py", "HybridLoad.process_two_day_loads", coqname="process_two_day_loads", rettype="tuple",
+           returns=["self.two_day_hourly_peak_cl_loads", "self.two_day_hourly_peak_hl_loads"],
+           ptypes={"self_hourly_rejection_loads": lq, "self_hourly_extraction_loads": lq, "self_days_in_month": lq, "self_monthly_peak_cl_day": lq,
+                   "self_monthly_peak_hl_day": lq, "self_two_day_hourly_peak_cl_loads": "list (list Q)", "self_two_day_hourly_peak_hl_loads": "list (list Q)"},
+           extra_strict=["self.hourly_rejection_loads", "self.hourly_extraction_loads", "self.days_in_month", "self.monthly_peak_cl_day", "self.monthly_peak_hl_day",
+                         "self.two_day_hourly_peak_cl_loads", "self.two_day_hourly_peak_hl_loads"])
     # ---- output time conversion (output.py) ----
     g.func("output.py", "OutputManager.hours_to_month", coqname="hours_to_month")
     g.func("output.py", "OutputManager.ghe_time_convert", coqname="ghe_time_convert", rettype="tuple")
